@@ -18,8 +18,10 @@ def gen_cases(ctx):
     for k in range(n_rand):
         ndim = rng.choice([1, 1, 1, 2, 3])
         c = dc.rand_case(rng, maxlen if k % 4 else 6, ndim=ndim)
-        if ndim > 1:
-            c["inner"] = "sq"   # ndim euclidean involves sqrt per point: covered in float mode (C11)
+        if ndim > 1 and c["inner"] == "abs":
+            # sqrt per point: not exact on the lattice -> engines compared with each other only (float mode)
+            c["float_mode"] = True
+            c["max_step"] = None
         # thresholds / pruning: settings expressible in both engines
         k2 = rng.random()
         if k2 < 0.15:
@@ -62,6 +64,30 @@ def run(ctx):
                 "window, penalty, max_step, max_dist, pruning, max_length_diff); non-trivial = some option active")
     lib = native.load("plain")
     cases = gen_cases(ctx)
+    fcases = [c for c in cases if c.get("float_mode")]
+    cases = [c for c in cases if not c.get("float_mode")]
+    for case in fcases:
+        case = {k: v for k, v in case.items() if k != "float_mode"}
+        if case.get("max_dist_I") is not None:
+            case["max_dist_I"] = None
+        py = impl.py_distance(case, "numpy", fast=False)
+        cy = impl.py_distance(case, "numpy", fast=True)
+        cd = c_direct(lib, case)
+        res.evaluations += 1
+        res.hit("ndim_euclidean_float_mode")
+        res.nontrivial.add(dc.case_key(case))
+        r_, c_ = dc.npoints(case)
+        for name, val in (("distance_fast", cy), ("dtw_distance (direct)", cd)):
+            if not agree(val, py, ulps=16):
+                if case.get("max_length_diff") == 0 and r_ != c_ and py == "inf" and ctx.known(res, "C02-MLD0", case):
+                    continue
+                invalid_ub = case.get("use_pruning") and ((case.get("penalty") and r_ != c_)
+                                                          or any(dc.psi_tuple(case.get("psi"))))
+                if invalid_ub and py == "inf" and ctx.known(res, "C02-PRUNE-INVALID-UB", case):
+                    continue
+                res.violations.append({"clause": "C engine == Python engine (ndim, Euclidean inner distance)",
+                                       "route": name, "case": case, "c": val, "python": py,
+                                       "kwargs": repr(dc.py_kwargs(case))})
     ops = [dc.lean_op(c, engine="c") for c in cases] + [dc.lean_op(c, engine="py") for c in cases]
     outs = ctx.driver.run(ops)
     n = len(cases)
